@@ -266,6 +266,19 @@ def _run_chunk(exe, chunk, env):
         if len(got) >= len(rest):
             break
         why = 'timeout' if 'TIMEOUT:' in e else 'alloc' if 'memory allocation of' in e or 'capacity overflow' in e else ('stack' if 'overflowed its stack' in e else 'other')
+        if why == 'timeout':
+            # the chunk as a whole ran out of time (a loaded machine): the case in progress is not to blame unless it
+            # also fails to finish when it runs alone
+            try:
+                q = subprocess.run([exe], input=rest[len(got)] + '\n', stdout=subprocess.PIPE, stderr=subprocess.PIPE, text=True,
+                                   env=env, cwd='/', errors='replace', timeout=CHUNK_TIMEOUT)
+                one = q.stdout.split('\n')
+                if q.returncode == 0 and one and one[0] != '':
+                    res.append(one[0])
+                    rest = rest[len(got) + 1:]
+                    continue
+            except subprocess.TimeoutExpired:
+                pass
         res.append('CRASH exit=%s why=%s %s' % (p.returncode, why, ' '.join(e.strip().split('\n')[:1])[:160]))
         rest = rest[len(got) + 1:]
     if len(res) < len(chunk):
